@@ -78,8 +78,14 @@ def compare_line(case, i, il, m, s, tags):
         return ("spec", "implementation differs from the specification")
     if il != m:
         kind = "spec" if sp != m.split(" ## ")[0] and s in ("", "*") else "model"
+        if case["lines"][i].startswith("load"):
+            kind = "model"      # when the table grows is a policy of the implementation, not part of the property
         return (kind, "implementation differs from the Lean model")
     return None
+
+
+# ops addressed by slot number: once the internal layout no longer corresponds to the model's their meaning is unknown
+LAYOUT_OPS = ("dele",)
 
 
 # ----------------------------------------------------------------------------- keys
@@ -272,6 +278,43 @@ def obj_history(rng, nops, kind=None):
     return lines
 
 
+def wide_obj_history(rng, kind):
+    """an object that has grown through several table sizes, then deletes most of its members while iterating over it
+    (foreach with delete-current, and plain deletes followed by every iteration form), refills and repeats: anything that
+    reorganises the table on delete (shrinking, compaction) has to keep a running iteration valid"""
+    nk = rng.choice([50, 90, 140, 200])
+    keys = [b"w%d_%s" % (i, rng.rbytes(rng.randrange(0, 4), b"abcxyz")) for i in range(nk)]
+    lines = ["obj " + kind]
+    live = []
+    for k in keys:
+        lines.append("oadd %s %d %d" % (hexs(k), rng.randrange(0, 1000), rng.choice([0, 0, 2])))
+        live.append(k)
+    lines.append("iter " + rng.choice(FORMS))
+    for rnd in range(rng.choice([1, 2, 3])):
+        mode = rng.choice(["all", "most", "half"])
+        ks = list(live) if mode == "all" else rng.sample(live, len(live) * (9 if mode == "most" else 5) // 10)
+        if rng.chance(0.6):
+            lines.append("fdel " + " ".join(hexs(x) for x in ks))
+        else:
+            for x in ks:
+                lines.append("odel " + hexs(x))
+        live = [x for x in live if x not in ks]
+        lines.append("olen")
+        lines.append("iter " + rng.choice(FORMS))
+        for x in rng.sample(live, min(len(live), 5)):
+            lines.append("oget " + hexs(x))
+        for x in rng.sample(ks, min(len(ks), 5)):
+            lines.append("oget " + hexs(x))
+        # refill part of what went
+        for x in rng.sample(ks, len(ks) // 3):
+            lines.append("oadd %s %d 0" % (hexs(x), rng.randrange(0, 1000)))
+            live.append(x)
+    for f in FORMS:
+        lines.append("iter " + f)
+    lines.append("free")
+    return lines
+
+
 # ----------------------------------------------------------------------------- exhaustive small scope
 def exhaustive(depth, sizes, kinds):
     keys = [b"0", b"1", b"2", b"3"]
@@ -310,6 +353,9 @@ def gen(rng, tier):
         yield {"lines": raw_history(rng, rng.choice([10, 30, 60, 60]), bad_resize=True), "keep": 1}
     for i in range(1000 if quick else 5000):
         yield {"lines": obj_history(rng, rng.choice([10, 30, 60])), "keep": 1}
+    for kind in ["dflt", "perl"]:
+        for _ in range(6 if quick else 40):
+            yield {"lines": wide_obj_history(rng, kind), "keep": 1}
     # churn
     for kind in ["id", "mod3", "const", "dflt", "perl", "sum"]:
         for size in ([3, 8, 16] if quick else [1, 2, 3, 5, 8, 16]):
